@@ -68,6 +68,8 @@ type Exec struct {
 	instSeen  map[[3]int]bool
 	sumBySrc  map[string][]string
 	nlinks    int
+	inInst    int
+	atWitness int
 	idxElemSort map[int]map[string]bool
 }
 
@@ -1925,8 +1927,12 @@ func (x *Exec) linkSums(st *State, app *Term) {
 		if x.instSeen[k3] {
 			continue
 		}
+		if x.atWitness > 0 {
+			// no links from instances made at the witness of another link: that chain would not end
+			return
+		}
 		if x.nlinks >= nlinkCap() {
-			return // each link names a witness whose reads trigger further instances: keep the chain finite
+			return
 		}
 		x.nlinks++
 		x.instSeen[k3] = true
@@ -2021,6 +2027,9 @@ func substTerm(t *Term, sub map[int]*Term) *Term {
 // rebuildTerm re-creates t with new arguments through the simplifying constructors, so that e.g. an accessor applied
 // to a substituted constructor term collapses (sl.ref(mkSlice(r, o, n)) = r) and backing-object keys stay comparable.
 func rebuildTerm(t *Term, na []*Term) *Term {
+	if os.Getenv("GOVC_NOREBUILD") != "" {
+		return TS.mk(t.op, t.val, t.sort, na...)
+	}
 	switch t.op {
 	case "+":
 		if len(na) == 2 {
@@ -2078,5 +2087,5 @@ func nlinkCap() int {
 		n, _ := strconv.Atoi(v)
 		return n
 	}
-	return 6
+	return 400
 }
